@@ -1,6 +1,8 @@
 //! Kani harnesses over the real `aquatic_common` crate (C03, C10, C11).
 #![allow(dead_code)]
 #[cfg(kani)]
+mod dbg;
+#[cfg(kani)]
 mod c03;
 #[cfg(kani)]
 mod c10;
